@@ -96,6 +96,19 @@ def main():
     os.dup2(tmp_out.fileno(), 1)
     os.dup2(tmp_err.fileno(), 2)
 
+    stdio = job.get('stdio')
+    if stdio:
+        # the process has no usable standard streams (pythonw / GUI / daemon), or ASCII-only ones
+        import io
+        for name in ('stdout', 'stderr'):
+            if stdio == 'none':
+                setattr(sys, name, None)
+            elif stdio == 'closed':
+                f = open(os.devnull, 'w')
+                f.close()
+                setattr(sys, name, f)
+            elif stdio == 'ascii':
+                setattr(sys, name, io.TextIOWrapper(io.BytesIO(), encoding='ascii', errors='strict'))
     ns = {'__name__': '__main__'}
     state_before = interpreter_state()
     # which environment variables does code of the package under test look at?  (recorded, never altered)
@@ -135,6 +148,8 @@ def main():
             res['probe'] = run_probe(job['probe'], res)
     finally:
         env_cls.__getitem__ = orig_getitem
+        if stdio:
+            sys.stdout, sys.stderr = sys.__stdout__, sys.__stderr__
         try:
             sys.stdout.flush()
             sys.stderr.flush()
@@ -190,8 +205,8 @@ def interpreter_state():
     st['excepthook'] = sys.excepthook is sys.__excepthook__
     st['displayhook'] = sys.displayhook is sys.__displayhook__
     st['unraisablehook'] = sys.unraisablehook is sys.__unraisablehook__
-    st['stdout'] = sys.stdout is sys.__stdout__
-    st['stderr'] = sys.stderr is sys.__stderr__
+    st['stdout'] = (sys.stdout is sys.__stdout__, id(sys.stdout))
+    st['stderr'] = (sys.stderr is sys.__stderr__, id(sys.stderr))
     st['threads'] = threading.active_count()
     st['gc'] = (gc.isenabled(), gc.get_threshold())
     st['locale'] = locale.setlocale(locale.LC_ALL)
